@@ -309,7 +309,7 @@ pub fn c16(tier: Tier) -> i32 {
             let b = build_menu(&[None, Some(1), Some(3)], &[None, Some(1), Some(2)], 2);
             for m in M7 {
                 for d in [1usize, 2, 3, 65, 130] {
-                    runs.push((cfg(m, d, 5, b.clone(), vec![5, 2], obs.clone(), &format!("forward-{}-d{d}", m.short())), caps(90)));
+                    runs.push((cfg(m, d, 5, b.clone(), vec![5, 2], obs.clone(), &format!("forward-{}-d{d}", m.short())), caps(40)));
                 }
             }
         }
@@ -335,7 +335,7 @@ pub fn c17(tier: Tier) -> i32 {
         Tier::Thorough => {
             let b = build_menu(&[None, Some(1), Some(3)], &[None, Some(1), Some(2)], 1);
             for d in [1usize, 2, 3, 65] {
-                runs.push((cfg(Metric::Cosine, d, 5, b.clone(), vec![5, 2], obs.clone(), &format!("cosine-d{d}")), caps(400)));
+                runs.push((cfg(Metric::Cosine, d, 5, b.clone(), vec![5, 2], obs.clone(), &format!("cosine-d{d}")), caps(300)));
             }
         }
     }
